@@ -76,7 +76,7 @@ def run(tier, rep, replay=None):
 
 
 MANIFEST = {
- "text": "Prio3.tla model-checks the protocol (shard into additive shares over a toy field, in-flight alteration of any share / proof / public-share part, prepare with joint-randomness consistency, aggregate, repeated unshard) with an ideal proof system: the unsharded value is the sum of exactly the accepted reports, accepted reports are valid, a single alteration is never accepted, unsharding never changes an aggregation share. Prio3Circuits.tla evaluates the draft's validity circuits over F_7 for ALL vectors and ALL joint randomness and proves they decide Prio3Types!Valid (incl. lengths that are not a multiple of the chunk length). In-tree recorders run every instance (Count, Sum, SumVec, Histogram, MultihotCountVec) on admissible, boundary and degenerate parameters and 2..5 (255 thorough) aggregators: honest batches with extremes, non-measurements, 15 single-message alteration sites, invalid encodings proved honestly through the library's own Prove (non-bit entries at first / last / random position, mismatched range halves, two-hot / zero-hot / non-bit-sum-one histograms, over-weight vectors whose reported weight hides the excess), every message through its marshal/unmarshal round trip, unshard mid-batch, twice, after more reports and via marshalled aggregation shares. TLC replays each session against Trace_Prio3.tla, which computes the expected encoding, validity and aggregate itself (BigNat arithmetic).",
+ "text": "Prio3.tla model-checks the protocol (shard into additive shares over a toy field, in-flight alteration of any share / proof / public-share part, prepare with joint-randomness consistency, aggregate, repeated unshard) with an ideal proof system: the unsharded value is the sum of exactly the accepted reports, accepted reports are valid, a single alteration is never accepted, unsharding never changes an aggregation share. Prio3Circuits.tla evaluates the draft's validity circuits over F_7 for ALL vectors and ALL joint randomness and proves they decide Prio3Types!Valid (incl. lengths that are not a multiple of the chunk length). In-tree recorders run every instance (Count, Sum, SumVec, Histogram, MultihotCountVec) on admissible, boundary and degenerate parameters and 2..5 (255 thorough) aggregators: honest batches with extremes, non-measurements, 15 single-message alteration sites, invalid encodings proved honestly through the library's own Prove (non-bit entries at first / last / random position, mismatched range halves, two-hot / zero-hot / non-bit-sum-one histograms, over-weight vectors whose reported weight hides the excess), every message through its marshal/unmarshal round trip, unshard mid-batch, twice, after more reports and via marshalled aggregation shares. TLC replays each session against Trace_Prio3.tla, which computes the expected encoding, validity and aggregate itself (BigNat arithmetic). The preparation state must not change when the caller decodes the next report into the InputShare object it passed (owned), and the site prep-shares-none (no preparation share reaches the combining step) must be rejected.",
  "note": "Parameter sets and measurements are fixed boundary cases plus seeded random ones; thorough adds 255 aggregators and a dozen random parameter sets per instance.",
  "technique": "TLC exhaustive check of toy protocol model and of validity circuits over F_7 + in-tree session recorders on real code + TLC stateful trace validation computing expected aggregates",
 }
